@@ -195,10 +195,6 @@ def gen_op(rng, rows):
     unindexed = [f for f in files if not f["indexed"]]
     indexed = [f for f in files if f["indexed"]]
     ready = [s for s in streams if s["tref"]]
-    if rng.random() < .5:
-        op = progress_op(rng, rows)
-        if op is not None:
-            return op
     # destructive scenarios that need a particular combination of arguments: a timing-reference file, or a file a
     # period depends on, addressed below the URL of a stream that does not own it
     if len(streams) >= 2 and rng.random() < .12:
@@ -210,6 +206,10 @@ def gen_op(rng, rows):
             if rng.random() < .7:
                 return ("dm", other, f["pk"], rng.randrange(2))
             return ("em", other, f["pk"], rng.choice(TRACKS))
+    if rng.random() < .5:
+        op = progress_op(rng, rows)
+        if op is not None:
+            return op
     cands = [
         ("as", 3 if len(streams) < 2 else (1.2 if len(streams) < 3 else .5)),
         ("up", 6 if streams else .3),
